@@ -16,6 +16,14 @@ CLAIMS = {
   "text": "Bounded model checking of the real cast kernels PrimToPrim (integer->integer all pairs in thorough, float->integer), IntToDecimal and DecimalToDecimal through CastFunction::{bind,cast}: representable => exact; otherwise error (CAST) or NULL (TRY_CAST); decimal results never exceed the target precision; downscaling rounds half away from zero (checked with a multiplication-only characterisation). Found and fixed: 10^scale computed in i32 (two casts), validate_precision overflow on MIN, missing precision check in decimal->decimal.",
   "note": "Stub (stated): CastErrorState::set_error is replaced by a flag-recording stub in the array-level harnesses because dropping a possibly-initialised DbError does not terminate in CBMC; the real set_error/into_result pair is decided by c13_cast_error_state. Decimal (p,s) are concrete per harness. Outside: text parsing/formatting (std dec2flt / fmt), float->float, dates/intervals.",
   "design": "§3 C13"},
+ "C07": {
+  "text": "Bounded model checking of the aggregate state algebra on the real state types (SUM int/decimal, COUNT, MIN, MAX, FIRST, BOOL_AND/OR, BIT_AND/OR, AVG over BIGINT): for every sequence of up to 4 symbolic inputs and every split into two partial states, finalize(merge(A,B)) = finalize(sequential) = the mathematical aggregate; empty input gives NULL (0 for COUNT); SUM overflow must fail. This is the partition/arrival-order independence of the property at the level where it is decided (the states), for all values rather than the sampled ones. Found and fixed: SUM restarting from 0 on overflow.",
+  "note": "Outside: group identification (hash table/directory resize, partitioned merge), DISTINCT pre-aggregation, ROLLUP/CUBE/GROUPING, string_agg, float accumulators (rounding order), UNION.",
+  "design": "§3 C07"},
+ "C20": {
+  "text": "Bounded model checking of the optimizer's constant-LIKE classifiers against a reference LIKE matcher written from the definition: whenever a pattern is classified as equality / prefix / suffix / contains, the replacement predicate on the trimmed pattern accepts exactly the strings the pattern denotes, for every pattern and subject over {a,b,%,_,\\} up to 3 bytes (4 in thorough). Found and fixed: patterns with escapes were rewritten; LIKE wildcards did not match newline (found by reading the regex translation, confirmed through the CLI).",
+  "note": "The general matcher itself (regex crate) is outside reach; its reading of the pattern language is the oracle. Outside: string kernels not yet harnessed are listed in DESIGN.md; regexp_* functions; case mapping; md5.",
+  "design": "§3 C20"},
  "C08": {
   "text": "Bounded model checking (Kani/CBMC) of the real sort-key encoders: for every pair of values of every sortable scalar type (full bit width, symbolic) memcmp order of the encoded keys equals the declared order (numeric, NaN largest, false<true, interval lexicographic), DESC inversion reverses it exactly, NULL bytes dominate per NULLS FIRST/LAST, and the 12-byte string prefix key never contradicts byte-wise order (strings <= 14 bytes). A solver verdict over all values, which the 2^16-value sampling of the tests cannot give for 32/64/128-bit keys.",
   "note": "Kani 0.68 / CBMC 6.11 / cadical trusted. Outside the claim: partial_sort, binary_merge, merge_queue block/run structures, heap tie-break comparison, planner. Bounds: loop unwinding asserted (unwind <= 18).",
